@@ -353,32 +353,53 @@ def by_key(repo: Repo, rep):
 def pair_len(repo: Repo, rep):
     rep.rule(
         "R-PAIR-LEN",
-        "DictAdapter.assign pairs the runtime mapping with the dict display's values by position only after `len(old_value) == len(old_node.keys)` held "
-        "(a display that spells a key twice has more nodes than the mapping has keys); otherwise it treats the whole dict as one value",
+        "wherever the entries of a runtime mapping are paired by position with the `.values` of a dict display's node (zip with the mapping's keys, "
+        "`node.values[list(m.keys()).index(k)]`, `values = node.values` zipped later), an equal-length test `len(m) == len(node.keys)` dominates the "
+        "pairing (a display that spells a key twice has more nodes than the mapping has keys); the sites are DictAdapter.assign / items and "
+        "DictValue.__getitem__ / _get_changes today, found by shape",
     )
-    f = repo.func("_adapter/dict_adapter.py::DictAdapter.assign")
-    cfg = cfg_of(f)
-    oldv, oldn = f.params[1], f.params[2]
-    lens = []
-    for c in cfg.conds():
-        e = c.ast
-        if isinstance(e, ast.Compare) and len(e.ops) == 1 and isinstance(e.ops[0], (ast.Eq, ast.NotEq)):
-            t = norm(e)
-            if f"len({oldv})" in t and f"len({oldn}.keys)" in t:
-                lens.append((c, "T" if isinstance(e.ops[0], ast.Eq) else "F"))
-    pairs = []
-    for n in cfg.live:
-        for c in node_calls(n):
-            if isinstance(c.func, ast.Name) and c.func.id == "zip" and any(f"{oldn}.values" in norm(a) for a in c.args) and any(oldv in norm(a) for a in c.args):
-                pairs.append((n, c))
-    rep.floor("R-PAIR-LEN", "positional pairings in DictAdapter.assign", len(pairs), 1)
-    for n, c in pairs:
-        nn_edges = [(x, "F") for x in cfg.conds() if norm(x.ast) == f"{oldn} is not None"] + [(x, "T") for x in cfg.conds() if norm(x.ast) == f"{oldn} is None"]
-        ok = bool(lens) and n not in reach(cfg, [cfg.entry], blocked_edges=lens + nn_edges)
-        if ok:
-            rep.ok("R-PAIR-LEN", f, c, "pairing only after the lengths were found equal")
+    sites = []
+    for f in repo.pkg_funcs():
+        for a in body_nodes(f.node):
+            if not (isinstance(a, ast.Attribute) and a.attr == "values" and isinstance(a.ctx, ast.Load)):
+                continue
+            par = parent(a)
+            if isinstance(par, ast.Call) and par.func is a:
+                continue  # mapping.values()
+            base = norm(a.value)
+            if "node" not in base.lower():
+                continue
+            # zip(node.keys, node.values): the display paired with itself, no runtime mapping involved
+            if isinstance(par, ast.Call) and isinstance(par.func, ast.Name) and par.func.id == "zip" and all(isinstance(x, ast.Attribute) and norm(x.value) == base for x in par.args):
+                continue
+            sites.append((f, a, base))
+    rep.floor("R-PAIR-LEN", "positional uses of a dict display's values", len(sites), 4)
+    for f, a, base in sites:
+        cfg = cfg_of(f)
+        lens = []
+        for c in cfg.conds():
+            e = c.ast
+            if isinstance(e, ast.Compare) and len(e.ops) == 1 and isinstance(e.ops[0], (ast.Eq, ast.NotEq)):
+                sides = [norm(e.left), norm(e.comparators[0])]
+                other = [x for x in sides if x != f"len({base}.keys)"]
+                if len(other) == 1 and other[0].startswith("len(") and base not in other[0]:
+                    lens.append((c, "T" if isinstance(e.ops[0], ast.Eq) else "F"))
+        nn_edges = [(x, "F") for x in cfg.conds() if norm(x.ast) == f"{base} is not None"] + [(x, "T") for x in cfg.conds() if norm(x.ast) == f"{base} is None"]
+        at = cfg.nodes_containing(a)
+        if not at:
+            continue
+        through = reach(cfg, [cfg.entry], blocked_edges=lens + nn_edges)
+        if lens and not any(n in through for n in at):
+            rep.ok("R-PAIR-LEN", f, a, "pairing only after the lengths were found equal")
         else:
-            rep.violation("R-PAIR-LEN", f, c, "DictAdapter.assign pairs mapping keys with display values by position without checking that the display has exactly one entry per key: with a key written twice, fix edits the first occurrence while the last one (the one that counts) keeps its stale value", construct="dict-pair-len")
+            rep.violation(
+                "R-PAIR-LEN",
+                f,
+                a,
+                f"{f.qualname} pairs the entries of the mapping with `{base}.values` by position without checking that the display has exactly one entry per key: "
+                "with a key written twice, trim deletes / fix edits the wrong entry (the last occurrence is the one that counts)",
+                construct="dict-pair-len" if f.qualname == "DictAdapter.assign" else f"dict-pair-len:{f.qualname}",
+            )
 
 
 def align_complete(repo: Repo, rep):
